@@ -2,4 +2,4 @@ import Paho.Driver.WsWriter
 open Paho.Driver
 
 def main (args : List String) : IO UInt32 :=
-  mainFor [("wswriter", wswDrv)] args
+  mainFor [("wswriter", wswDrv), ("tcpwriter", tcpwDrv)] args
